@@ -269,12 +269,15 @@ func (f *Formatter) formatIfStatement(stmt *ast.IfStatement) string {
 	}
 
 	// else if, elseif, elsif
-	for _, a := range stmt.Another {
+	for i, a := range stmt.Another {
 		// If leading comments exists or AlwaysNextLineElseIf configuration is enabled,
 		// The keyword should be printed on the next line.
 		if len(a.Leading) > 0 || f.conf.AlwaysNextLineElseIf {
 			buf.WriteString("\n")
 			buf.WriteString(f.formatComment(a.Leading, "\n", a.Nest))
+			buf.WriteString(f.indent(a.Nest))
+		} else if bytes.HasSuffix(buf.Bytes(), []byte("\n")) {
+			// The previous block ends with a line comment, the keyword starts the next line
 			buf.WriteString(f.indent(a.Nest))
 		} else {
 			// Otherwise, write with whitespace character
@@ -309,7 +312,10 @@ func (f *Formatter) formatIfStatement(stmt *ast.IfStatement) string {
 		buf.WriteString(f.formatBlockStatement(a.Consequence))
 		if v := f.formatComment(a.Consequence.Trailing, "", 0); v != "" {
 			// If comment is inline , concat to the same line
-			if isInlineComment(a.Consequence.Trailing) {
+			if i == len(stmt.Another)-1 && stmt.Alternative == nil {
+				// The last block of the statement: comment is trailing of the line like else block
+				buf.WriteString(f.trailing(a.Consequence.Trailing))
+			} else if isInlineComment(a.Consequence.Trailing) {
 				buf.WriteString(" " + v)
 			} else {
 				// Otherwise, print to the new line
@@ -325,6 +331,8 @@ func (f *Formatter) formatIfStatement(stmt *ast.IfStatement) string {
 		if len(stmt.Alternative.Leading) > 0 || f.conf.AlwaysNextLineElseIf {
 			buf.WriteString("\n")
 			buf.WriteString(f.formatComment(stmt.Alternative.Leading, "\n", stmt.Alternative.Nest))
+			buf.WriteString(f.indent(stmt.Alternative.Nest))
+		} else if bytes.HasSuffix(buf.Bytes(), []byte("\n")) {
 			buf.WriteString(f.indent(stmt.Alternative.Nest))
 		} else {
 			buf.WriteString(" ")
